@@ -544,6 +544,66 @@ def _bounds_checks() -> dict:
     return out
 
 
+def _delivery_condition(fn) -> set:
+    """
+    Normal form of "when is listener.on_packet(packet) reached" for a straight-line function made of
+      * guard clauses   `if <c>: return`
+      * local bindings  `<name> = <expr>`            (substituted into later conditions)
+      * one final       `if <c>: listener.on_packet(packet)`
+    = the SET of conjuncts of (not guard_1) and … and (final condition), each conjunct either the text of an atom or the
+    frozenset of the texts of the disjuncts of an `or`.  Order of conjuncts / disjuncts, naming of intermediate booleans and
+    guard-clause vs nested-condition style do not matter; the atoms themselves must be textually the expected ones.
+    """
+    import copy
+    env: dict = {}
+
+    def subst(e):
+        class Sub(ast.NodeTransformer):
+            def visit_Name(self, node):
+                return copy.deepcopy(env[node.id]) if node.id in env else node
+        return Sub().visit(copy.deepcopy(e))
+
+    def conj(e):
+        if isinstance(e, ast.BoolOp) and isinstance(e.op, ast.And):
+            return [c for v in e.values for c in conj(v)]
+        return [e]
+
+    def neg(e):
+        if isinstance(e, ast.UnaryOp) and isinstance(e.op, ast.Not):
+            return conj(e.operand)
+        if isinstance(e, ast.BoolOp) and isinstance(e.op, ast.Or):
+            return [c for v in e.values for c in neg(v)]
+        if isinstance(e, ast.BoolOp):
+            raise TranslatorError("Endpoint._deliver_later: negated conjunction in a guard clause outside the subset")
+        return [ast.UnaryOp(op=ast.Not(), operand=e)]
+
+    def norm(e):
+        if isinstance(e, ast.BoolOp) and isinstance(e.op, ast.Or):
+            return frozenset(ast.unparse(v) for v in e.values)
+        return ast.unparse(e)
+    out: set = set()
+    delivered = False
+    for st in fn.body:
+        if isinstance(st, ast.Expr) and isinstance(st.value, ast.Constant):
+            continue
+        if delivered:
+            raise TranslatorError("Endpoint._deliver_later: statements after the delivery outside the subset")
+        if isinstance(st, ast.Assign) and len(st.targets) == 1 and isinstance(st.targets[0], ast.Name):
+            env[st.targets[0].id] = subst(st.value)
+        elif isinstance(st, ast.If) and not st.orelse and len(st.body) == 1 and isinstance(st.body[0], ast.Return) \
+                and st.body[0].value is None:
+            out |= {norm(c) for c in neg(subst(st.test))}
+        elif isinstance(st, ast.If) and not st.orelse and len(st.body) == 1 \
+                and ast.unparse(st.body[0]) == "listener.on_packet(packet)":
+            out |= {norm(c) for c in conj(subst(st.test))}
+            delivered = True
+        else:
+            raise TranslatorError(f"Endpoint._deliver_later: statement `{ast.unparse(st)[:60]}` outside the subset")
+    if not delivered:
+        raise TranslatorError("Endpoint._deliver_later: no `listener.on_packet(packet)` delivery found")
+    return out
+
+
 def _endpoint_shapes() -> dict:
     """
     ipv8/messaging/interfaces/endpoint.py, class Endpoint.  Read:
@@ -597,9 +657,10 @@ def _endpoint_shapes() -> dict:
                                                             "set(listeners) == set(self._listeners)"):
         raise TranslatorError("Endpoint.remove_listener: the keep/drop test of a prefix entry is outside the subset")
     fn = _func(tree, "Endpoint", "_deliver_later")
-    conds = [ast.unparse(n.test) for n in ast.walk(fn) if isinstance(n, ast.If)]
-    if conds != ["self.is_open() and (packet[1][:self.prefixlen] in self._prefix_map or listener in self._listeners)"]:
-        raise TranslatorError(f"Endpoint._deliver_later: test {conds} outside the subset")
+    got = _delivery_condition(fn)
+    want = {"self.is_open()", frozenset({"packet[1][:self.prefixlen] in self._prefix_map", "listener in self._listeners"})}
+    if got != want:
+        raise TranslatorError(f"Endpoint._deliver_later: delivery condition {sorted(map(str, got))} outside the subset")
     fn = _func(tree, "Endpoint", "notify_listeners")
     asg = [ast.unparse(n) for n in ast.walk(fn) if isinstance(n, ast.Assign)]
     if sorted(asg) != sorted(["prefix = packet[1][:self.prefixlen]", "listeners = self._prefix_map.get(prefix, self._listeners)"]):
